@@ -418,6 +418,9 @@ func (w *World) Exec(n int, st *Step) *Obs {
 		if st.RM {
 			q.Set("rm", "true")
 		}
+		if v := st.str("redir2"); v != "" {
+			q.Add("redir", v) // the parameter given twice
+		}
 		if v := st.str("extra"); v != "" {
 			q.Set("extra", v)
 		}
